@@ -176,7 +176,7 @@ def _check_stat(model, vlib, cmp, rng):
     names = ["FILE_ATTRIBUTE_ARCHIVE", "FILE_ATTRIBUTE_DIRECTORY", "FILE_ATTRIBUTE_READONLY", "FILE_ATTRIBUTE_REPARSE_POINT"]
     consts = model.call("prim_stat", [0, 0])
     cmp("stat.FILE_ATTRIBUTE_*", names, consts, [getattr(stat, x, None) for x in names])
-    modes = set([0, 0o777, 0o7777, 0o10000, 0o170000, 0o177777, 0o200000, 0o1000000, (1 << 32) - 1, (1 << 40) + 5])
+    modes = set([0, 0o777, 0o7777, 0o10000, 0o170000, 0o177777, 0o200000, 0o1000000, (1 << 32) - 1, 1 << 32, (1 << 40) + 5, -1, -4096])
     for fmt in (0o010000, 0o020000, 0o040000, 0o060000, 0o100000, 0o120000, 0o140000, 0o160000, 0o110000, 0, 0o030000):
         for perm in (0, 0o644, 0o755, 0o7777, 0o4000):
             modes.add(fmt | perm)
@@ -184,10 +184,10 @@ def _check_stat(model, vlib, cmp, rng):
     for _ in range(300):
         modes.add(rng.getrandbits(rng.choice([12, 16, 17, 32, 48])))
     for m in sorted(modes):
-        g = model.call("prim_stat", [1, m])
-        cmp("stat.S_ISLNK/S_ISSOCK/S_IMODE/S_IFMT/S_ISDIR/S_ISREG", m, g,
-            [1 if stat.S_ISLNK(m) else 0, 1 if stat.S_ISSOCK(m) else 0, stat.S_IMODE(m), stat.S_IFMT(m),
-             1 if stat.S_ISDIR(m) else 0, 1 if stat.S_ISREG(m) else 0])
+        g = [_res(x) for x in model.call("prim_stat", [1, m])]
+        want = [_py(lambda: f(m)) for f in (stat.S_ISLNK, stat.S_ISSOCK, stat.S_IMODE, stat.S_IFMT, stat.S_ISDIR, stat.S_ISREG)]
+        want = [(1 if w else 0) if isinstance(w, bool) else w for w in want]
+        cmp("stat.S_ISLNK/S_ISSOCK/S_IMODE/S_IFMT/S_ISDIR/S_ISREG", m, g, want)
 
 
 def _check_re(model, vlib, cmp, rng):
